@@ -3,6 +3,7 @@
 package kcache
 
 import (
+	"github.com/boz/kcache/filter"
 	"github.com/boz/kcache/zzverif"
 	pkgerrors "github.com/pkg/errors"
 	metav1 "k8s.io/apimachinery/pkg/apis/meta/v1"
@@ -166,4 +167,43 @@ func VerifC16_Monitor() {
 	if len(got) > 0 {
 		zzverif.Reach("C16/callbacks")
 	}
+}
+
+// VerifC16_Filtered: a monitor on a REAL filtered publisher (CloneWithFilter /
+// CloneForFilter: filterSubscription + private cache + publisher) whose root shuts down
+// before it ever became ready: no callback runs at all, whichever of the root, the
+// filtered publisher or the monitor is closed, and in every interleaving of the
+// monitor's readiness wait with the shutdown of the filter's cache.
+func VerifC16_Filtered() {
+	t := newTreeR(4, false)
+	var fc FilterController
+	var err error
+	if zzverif.NondetInt("deferred", 0, 1) == 0 {
+		fc, err = t.nodes[0].pub.CloneWithFilter(filter.Null())
+	} else {
+		fc, err = t.nodes[0].pub.CloneForFilter()
+	}
+	zzverif.Assert(err == nil, "harness/attach")
+	h := &vRecHandler{busy: make(chan struct{}, 1), monch: make(chan Monitor, 1)}
+	m, err := NewMonitor(fc, h)
+	zzverif.Assert(err == nil, "C16/new")
+	h.monch <- m
+	if zzverif.NondetInt("refilter", 0, 1) == 1 {
+		zzverif.Assert(fc.Refilter(symFilter{1}) == nil, "harness/refilter")
+	}
+	if zzverif.NondetInt("settle", 0, 1) == 1 {
+		zzverif.Quiesce()
+	}
+	switch zzverif.NondetInt("how", 0, 2) {
+	case 0:
+		t.root.Close()
+	case 1:
+		fc.Close()
+	default:
+		m.Close()
+	}
+	<-m.Done()
+	zzverif.Quiesce()
+	zzverif.Assert(len(h.calls) == 0, "C16/no-callback-if-never-ready")
+	zzverif.Reach("C16/filtered-never-ready")
 }
